@@ -232,8 +232,13 @@ def run(ctx):
             calls = [n for n in astx.walk_fn(cj.node) if isinstance(n, ast.Call) and txt(n.func) == "self.resolve_degree"]
             ifs = [s for s in lp.body if isinstance(s, ast.If)]
             if len(calls) == 1 and len(ifs) == 1:
-                br = par.branch_of(calls[0], ifs[0])
-                r = rules.compare_with_pivot(ifs[0].test, lambda x: txt(x) == txt(lp.target), negated=(br == "orelse"))
+                # the condition under which the call runs: an enclosing branch, or what is left after `if ..: ...; continue`
+                facts = rules.known_facts(par, calls[0], upto=lp)
+                r = None
+                for t_, pol_ in facts:
+                    r = rules.compare_with_pivot(t_, lambda x: txt(x) == txt(lp.target), negated=not pol_)
+                    if r is not None:
+                        break
                 if r is not None and r[0] == "==" and txt(r[1]) == "self._target_k":
                     o.holds(cj, calls[0], "the split is applied exactly at k == target")
                 elif r is not None:
